@@ -11,7 +11,7 @@ rc=0
 tmp=$(mktemp -d)
 cp spec/*.tla "$tmp"/
 for f in "$tmp"/*.tla; do
-  (cd "$tmp" && java -cp /opt/veriftools/tla/tla2tools.jar:/opt/veriftools/tla/CommunityModules-deps.jar tla2sany.SANY "$(basename "$f")" >"$f.sany" 2>&1) || { echo "SANY failed: $f"; tail -20 "$f.sany"; rc=1; }
+  (cd "$tmp" && java -DTLA-Library=/opt/veriftools/tlapm/lib/tlapm/stdlib -cp /opt/veriftools/tla/tla2tools.jar:/opt/veriftools/tla/CommunityModules-deps.jar tla2sany.SANY "$(basename "$f")" >"$f.sany" 2>&1) || { echo "SANY failed: $f"; tail -20 "$f.sany"; rc=1; }
 done
 rm -rf "$tmp"
 exit $rc
